@@ -128,6 +128,9 @@ def sample_flow_cfg(rng, D=None, ctx=None):
             if seen_lt:
                 parts[i] = {"fam": "leakyrelu", "shape": c["shape"], "slope": 0.3}
             seen_lt = True
+    # ... and it comes first (data side): when sampling, its exploding inverse is then applied last, so that no conditioner
+    # network is fed values of 1e13 (whose spline parameters overflow and trip the splines' internal assertions)
+    parts.sort(key=lambda c: 0 if c["fam"] == "logtanh" else 1)
     base = str(rng.choice(["standard", "standard", "cond_diag", "plain"])) if ctx else str(rng.choice(["standard", "standard", "plain"]))
     return {"flow": "generic", "D": D, "ctx": ctx, "parts": parts, "base": base,
             "embed": bool(ctx and rng.random() < 0.4)}
@@ -259,6 +262,13 @@ def sample_program_flow(rng, D):
         if "B" in c:
             c["B"] = float(rng.choice([1.0, 2.5]))
         parts.append(c)
+    seen_lt = False
+    for i, c in enumerate(parts):
+        if c["fam"] == "logtanh":
+            if seen_lt:
+                parts[i] = {"fam": "leakyrelu", "shape": c["shape"], "slope": 0.3}
+            seen_lt = True
+    parts.sort(key=lambda c: 0 if c["fam"] == "logtanh" else 1)      # see sample_flow_cfg
     base = str(rng.choice(["standard", "standard", "diag", "cond_diag", "mademog", "plain"] if ctx else ["standard", "standard", "diag", "mademog", "plain"]))
     if D >= 2:
         # Sigmoid..Logit pairs clamp at eps (declared): their image is only +-13.8/T.  In 2-D (no reachability test) they
